@@ -14,7 +14,7 @@ RULE = (
     ">=2 variables written and at least one line rejected; state = (variables, counters, record)"
 )
 BOUNDS = {
-    "quick": "all ordered writer pairs x {no filter, filter first, filter last} x 20 files x window *; pairs x 6 files x windows {1*, 1-2}; filtered pairs x 3 files under return-mode no-matches",
+    "quick": "all ordered writer pairs x {no filter, filter first, filter last} x 22 files x window *; pairs x 6 files x windows {1*, 1-2}; filtered pairs x 3 files under return-mode no-matches",
     "thorough": "pairs x (no filter, 3 filters first, 2 filters last, 1 filter between) x all 259 files of <=3 records x 3 windows; triples over a 12-writer subset x 20 files",
 }
 CHUNK = 60
@@ -43,6 +43,7 @@ WRITERS = [
     fn("tally", [], [H0]),
     fn("tally", ["tt"], [H0, H1]),
     fn("tally", ["tm", "onmatch"], [H0]),
+    fn("tally", ["tp"], [H1, H0]),
     fn("sum", [], [H1]),
     fn("sum", ["s2", "onmatch"], [H1]),
     fn("subtotal", ["st"], [H0, H1]),
@@ -106,8 +107,8 @@ def written_var(w):
 XON = next(i for i, w in enumerate(WRITERS) if w[0] == "=" and w[1][1] == "x" and "onmatch" in w[2])
 FILTERS = [["==", H0, T("1")], fn("no"), ["==", H1, T("2")]]
 PRINT = fn("print", [], [T("$.csvpath.count_scans $.csvpath.line_number ")])
-ROWS = {"p": ["1", "2"], "q": ["2", "1"], "r": ["10", "9"], "e": ["", "x"], "s": ["abc"], "b": None, "t": ["1", "9"]}
-FILES_Q = ["b", "bpb", "p", "pq", "qp", "pp", "pqr", "rqp", "ppq", "pqp", "pbq", "prp", "qrq", "pqb", "ppp", "bpq", "qqp", "qrp", "pqt", "qpt"]
+ROWS = {"p": ["1", "2"], "q": ["2", "1"], "r": ["10", "9"], "e": ["", "x"], "s": ["abc"], "b": None, "t": ["1", "9"], "v": ["1|", "2"]}  # v: a value that itself ends in the separator tally() joins with
+FILES_Q = ["b", "bpb", "pv", "vqv", "p", "pq", "qp", "pp", "pqr", "rqp", "ppq", "pqp", "pbq", "prp", "qrq", "pqb", "ppp", "bpq", "qqp", "qrp", "pqt", "qpt"]
 FILES_W = ["pqr", "rqp", "ppq", "pbq", "pqpq", "qprp"]
 
 
